@@ -416,3 +416,170 @@ Proof.
       destruct (lrun v s1 (local_events bk j r)); reflexivity.
     + reflexivity.
 Qed.
+
+(* ---------- an input-only sufficient condition for "no wrap" ----------
+   If, per counter, the sum of every reading that appears anywhere in the history is below 2^64, no
+   cumulative ever wraps (each cumulative is bounded by the sum of the readings seen so far). *)
+Definition c4_add (a b : c4) : c4 := c4_map2 N.add a b.
+Fixpoint items_sum (l : list (N * c4)) : c4 :=
+  match l with [] => c4z | (_, c) :: r => c4_add (c4_norm c) (items_sum r) end.
+Definition snap_sum (sn : snap) : c4 := match sn with None => c4z | Some l => items_sum l end.
+Definition ev_sum (ev : sev) : c4 :=
+  match ev with EReleased sn => snap_sum sn | ETick sn _ => snap_sum sn | _ => c4z end.
+Fixpoint total_readings (evs : list sev) : c4 :=
+  match evs with [] => c4z | ev :: r => c4_add (ev_sum ev) (total_readings r) end.
+
+Ltac c4crush :=
+  unfold c4_le, c4_lt_W, c4_add, c4_map2, c4z in *; cbn [rxb txb rxp txp] in *; lia.
+
+Lemma lookup_last_le l : forall i acc st X,
+  (forall c, acc = Some c -> c4_le c X) -> lookup_last l i acc = Some st ->
+  c4_le st (c4_add X (items_sum l)).
+Proof.
+  induction l as [|[j c] r IH]; intros i acc st X Ha H; cbn [lookup_last items_sum] in *.
+  - specialize (Ha st H). c4crush.
+  - assert (B : c4_le st (c4_add (c4_add X (c4_norm c)) (items_sum r))).
+    { eapply IH; [|exact H]. intros c0 Hc. destruct (N.eqb i j).
+      - inversion Hc; subst. c4crush.
+      - specialize (Ha c0 Hc). c4crush. }
+    c4crush.
+Qed.
+
+Lemma lookup_stats_le sn i st : lookup_stats sn i = Some st -> c4_le st (snap_sum sn).
+Proof.
+  unfold lookup_stats, snap_sum. destruct sn as [l|]; [|discriminate]. intros H.
+  pose proof (lookup_last_le l i None st c4z) as B.
+  assert (B' : c4_le st (c4_add c4z (items_sum l))) by (apply B; [intros c Hc; discriminate|exact H]).
+  c4crush.
+Qed.
+
+Definition sinv (B : c4) (e : sess) : Prop :=
+  base e = c4z /\ c4_le (prior e) (last e) /\ c4_le (last e) B.
+
+Lemma sinv_mono B B' e : sinv B e -> c4_le B B' -> sinv B' e.
+Proof. intros (H1 & H2 & H3) L. split; [exact H1|split; [exact H2|c4crush]]. Qed.
+
+Lemma c4_any2_false_intro f a b :
+  f (rxb a) (rxb b) = false -> f (txb a) (txb b) = false ->
+  f (rxp a) (rxp b) = false -> f (txp a) (txp b) = false -> c4_any2 f a b = false.
+Proof. intros H1 H2 H3 H4. unfold c4_any2. rewrite H1, H2, H3, H4. reflexivity. Qed.
+
+Lemma apply_bound B T e st :
+  sinv B e -> c4_lt_W st -> c4_le st T -> c4_lt_W (c4_add B T) ->
+  apply_wraps repaired e st = false /\
+  sinv (c4_add B T) (fst (apply repaired e st)) /\
+  c4_le (prior (fst (apply repaired e st))) (snd (apply repaired e st)) /\
+  c4_le (snd (apply repaired e st)) (c4_add B T).
+Proof.
+  intros (Hb & Hp & Hl) Lst LT LW.
+  unfold apply, apply_wraps. cbn [fst snd].
+  assert (E : base (rebase repaired e st) = c4z /\
+              c4_le (prior (rebase repaired e st)) (last e) /\ last (rebase repaired e st) = last e).
+  { unfold rebase. destruct (regressed repaired e st); cbn [base prior last]; (split; [|split]); auto; try c4crush. }
+  destruct E as (E1 & E2 & E3).
+  set (e' := rebase repaired e st) in *.
+  assert (C : cum e' st = c4_add st (prior e')).
+  { unfold cum. rewrite E1. destruct st as [a b c d], (prior e') as [pa pb pc pd] eqn:PE.
+    destruct (last e) as [la lb lc ld], B as [ba bb bc bd], T as [ta tb tc td].
+    unfold c4_le, c4_lt_W, c4_add, c4_map2, c4z in *; cbn [rxb txb rxp txp] in *.
+    rewrite !sub64_zero by lia. rewrite !add64_small by lia. reflexivity. }
+  split; [|split; [|split]].
+  - rewrite E1.
+    destruct st as [a b c d], (prior e') as [pa pb pc pd], (last e) as [la lb lc ld],
+             B as [ba bb bc bd], T as [ta tb tc td].
+    unfold c4_le, c4_lt_W, c4_add, c4_map2, c4z in *; cbn [rxb txb rxp txp] in *.
+    apply orb_false_intro; apply c4_any2_false_intro; cbn [rxb txb rxp txp];
+      try (apply N.ltb_ge; lia); apply N.leb_gt; lia.
+  - unfold sinv. split; [exact E1|split].
+    + rewrite E3. exact E2.
+    + rewrite E3. c4crush.
+  - rewrite C. c4crush.
+  - rewrite C. c4crush.
+Qed.
+
+Lemma report_bound B T e sn :
+  sinv B e -> c4_le (snap_sum sn) T -> c4_lt_W (c4_add B T) ->
+  report_wraps repaired e sn = false /\
+  sinv (c4_add B T) (fst (report repaired e sn)) /\
+  c4_le (prior (fst (report repaired e sn))) (snd (report repaired e sn)) /\
+  c4_le (snd (report repaired e sn)) (c4_add B T).
+Proof.
+  intros I LT LW. unfold report, report_wraps.
+  destruct (lookup_stats sn (ifx e)) as [st|] eqn:L.
+  - apply apply_bound; auto.
+    + eapply lookup_stats_lt; exact L.
+    + pose proof (lookup_stats_le sn (ifx e) st L). c4crush.
+  - cbn [fst snd]. destruct I as (I1 & I2 & I3). split; [reflexivity|split; [|split]].
+    + unfold sinv. split; [exact I1|split; [exact I2|c4crush]].
+    + exact I2.
+    + c4crush.
+Qed.
+
+Definition ginv (B : c4) (s : sst) : Prop :=
+  (forall e, cache s = Some e -> sinv B e) /\ (forall d, db s = Some d -> sinv B d).
+
+Lemma c4_le_refl a : c4_le a a. Proof. c4crush. Qed.
+
+Lemma step_bound B s ev :
+  ginv B s -> c4_lt_W (c4_add B (ev_sum ev)) ->
+  lstep_wraps repaired s ev = false /\ ginv (c4_add B (ev_sum ev)) (fst (lstep repaired s ev)).
+Proof.
+  intros [Ic Id] LW.
+  assert (MB : c4_le B (c4_add B (ev_sum ev))) by c4crush.
+  assert (Ic' : forall e, cache s = Some e -> sinv (c4_add B (ev_sum ev)) e)
+    by (intros e He; eapply sinv_mono; [apply Ic; exact He|exact MB]).
+  assert (Id' : forall d, db s = Some d -> sinv (c4_add B (ev_sum ev)) d)
+    by (intros d Hd; eapply sinv_mono; [apply Id; exact Hd|exact MB]).
+  assert (F : forall i, sinv (c4_add B (ev_sum ev)) (fresh i))
+    by (intros i; unfold sinv, fresh; cbn [base prior last]; split; [reflexivity|split; c4crush]).
+  destruct s as [ib ca d]. cbn [cache db] in *.
+  destruct ev as [i|i|sn|sn ok| |past]; cbn [lstep lstep_wraps cache db inb ev_sum] in *.
+  - split; [destruct ca; reflexivity|].
+    destruct ib; [split; cbn; auto|].
+    destruct ca as [e|]; cbn [fix_active repaired fst]; split; cbn [cache db]; intros x Hx; inversion Hx; subst; auto.
+    specialize (Ic' e eq_refl). unfold sinv, confirm in *; cbn. exact Ic'.
+  - split; [destruct ca; reflexivity|].
+    destruct ca as [e|]; cbn [fst]; split; cbn [cache db]; intros x Hx; try (inversion Hx; subst); auto.
+    specialize (Ic' e eq_refl). unfold sinv, confirm in *; cbn. exact Ic'.
+  - destruct ca as [e|].
+    + destruct (report_bound B (snap_sum sn) e sn (Ic e eq_refl) (c4_le_refl _) LW) as (R1 & _).
+      split; [exact R1|]. cbn. split; intros x Hx; discriminate.
+    + split; [reflexivity|]. cbn. split; intros x Hx; discriminate.
+  - destruct ca as [e|].
+    + destruct (report_bound B (snap_sum sn) e sn (Ic e eq_refl) (c4_le_refl _) LW) as (R1 & R2 & R3 & R4).
+      destruct ib; cbn [andb].
+      * split; [exact R1|].
+        destruct (report repaired e sn) as [e' c] eqn:RP. cbn [fst snd] in *.
+        destruct ok; cbn [fst]; split; cbn [cache db]; intros x Hx; try (inversion Hx; subst); auto;
+          destruct R2 as (Q1 & Q2 & Q3); unfold sinv; cbn [base prior last]; (split; [|split]); auto.
+      * split; [reflexivity|]. cbn. split; auto.
+    + split; [destruct ib; reflexivity|]. destruct ib; cbn; split; auto.
+  - split; [destruct ca; reflexivity|]. cbn [fst]. split; cbn [cache db]; [|exact Id'].
+    intros x Hx. destruct d as [dd|]; [|discriminate]. inversion Hx; subst.
+    specialize (Id' dd eq_refl). unfold sinv in *; cbn. exact Id'.
+  - split; [destruct ca; reflexivity|].
+    destruct ca as [e|]; [|cbn; split; auto].
+    destruct (pending e && past); cbn; split; auto; intros x Hx; discriminate.
+Qed.
+
+Lemma run_bound evs : forall s B,
+  ginv B s -> c4_lt_W (c4_add B (total_readings evs)) -> lrun_wraps repaired s evs = false.
+Proof.
+  induction evs as [|ev r IH]; intros s B I LW; cbn [lrun_wraps total_readings] in *; [reflexivity|].
+  assert (LW1 : c4_lt_W (c4_add B (ev_sum ev))) by c4crush.
+  destruct (step_bound B s ev I LW1) as [S1 S2].
+  rewrite S1. cbn [orb]. eapply IH; [exact S2|]. c4crush.
+Qed.
+
+Lemma no_wrap_if_total_small evs :
+  c4_lt_W (total_readings evs) -> lrun_wraps repaired sst0 evs = false.
+Proof.
+  intros H. apply (run_bound evs sst0 c4z).
+  - split; intros x Hx; discriminate.
+  - c4crush.
+Qed.
+
+Lemma monotone_total evs :
+  c4_lt_W (total_readings evs) -> no_prune evs = true ->
+  nondecreasing c4z (outputs (snd (lrun repaired sst0 evs))) = true.
+Proof. intros H NP. apply monotone; [apply no_wrap_if_total_small; exact H|exact NP]. Qed.
